@@ -84,6 +84,7 @@ def corpus(out, tier, seed, wd, trace=False, extra=None, light=False):
             for cfg, inputs in FOCUSED_QUICK:
                 add(cfg, inputs)
             add("MC_SliceEq", [LIST4], module="MC_SliceEq")          # shapes too deep for the size-bounded enumeration
+            add("MC_SliceOps", [LIST4], module="MC_SliceOps")
             add("MC_Programs_sim", [None, progs.INPUTS[1], progs.INPUTS[3]], simulate=300, depth=14, seed=seed, min_nodes=5, cap=1200)
         else:
             add("MC_Programs_t4", progs.INPUTS, timeout=3000)
@@ -91,6 +92,7 @@ def corpus(out, tier, seed, wd, trace=False, extra=None, light=False):
             for cfg, inputs in FOCUSED_THOROUGH:
                 add(cfg, inputs, timeout=3000)
             add("MC_SliceEq", [LIST4, None], module="MC_SliceEq")
+            add("MC_SliceOps", [LIST4, None], module="MC_SliceOps")
             add("MC_Programs_sim", progs.INPUTS, simulate=6000, depth=14, seed=seed, min_nodes=5, cap=40000)
     return cases, ncases, nprogs, "programs by generator config: " + ", ".join(parts)
 
